@@ -1,49 +1,79 @@
 ---- MODULE StreamRace ----
 (***************************************************************************)
-(* C47, schedules.  ValveWriter and concurrentWriter protect the underlying *)
-(* writer with one mutex: Write holds it across the downstream call, Shut   *)
-(* holds it while it drops the writer.  This module interleaves Writers     *)
-(* (and, for the valve, one Shut) at the granularity of lock / downstream   *)
-(* entry / downstream exit / unlock and checks, on the event order, the two *)
-(* schedule contracts of StreamOps (Serialized, ShutIsFinal) -- the same    *)
-(* operators StreamWriters_Trace.tla evaluates on event orders recorded     *)
-(* from the real helpers while one write is held inside the downstream      *)
-(* writer.                                                                  *)
+(* C47, schedules of the lock-protected helpers.  ValveWriter and           *)
+(* concurrentWriter guard the underlying writer with one mutex:             *)
+(*     Write:  Lock ; (valve: if w.writer == nil return) ; w.writer.Write ; *)
+(*             Unlock                                                       *)
+(*     Shut:   Lock ; w.writer = nil ; Unlock                               *)
+(* Each line of that is one step here (call, [read field], lock, read field *)
+(* + enter the underlying writer, leave it, unlock, return), all            *)
+(* interleavings of the Writers and (WithShut) one Shut are explored, and   *)
+(* the schedule contracts of StreamOps are checked on the event order --    *)
+(* the same operators StreamWriters_Trace.tla evaluates on ticketed event   *)
+(* orders recorded from the real helpers while one Write is held inside a   *)
+(* gated underlying writer and two more calls queue on the mutex.           *)
+(*                                                                         *)
+(* StaleRead = FALSE is the code: the writer field is read under the lock.  *)
+(* StaleRead = TRUE is the what-if variant (StreamRace_MC_whatif.cfg, not   *)
+(* part of any check): the field is read into a local BEFORE Lock and the   *)
+(* local is used under the lock.  TLC then finds  A in the underlying       *)
+(* writer, Shut queued, B reads non-nil and queues, A leaves, Shut runs and *)
+(* returns, B writes -- C47_ShutDiscards is violated, i.e. the invariant    *)
+(* has teeth exactly where a sequential test has none.                      *)
 (***************************************************************************)
 EXTENDS StreamOps, TLC
 
-CONSTANTS Writers,     \* writer processes
-          WithShut     \* TRUE: a valve with one Shut call; FALSE: no Shut (valve or concurrent writer)
+CONSTANTS Writers,     \* Write calls (one process each)
+          WithShut,    \* TRUE: a valve with one Shut call; FALSE: no Shut (valve or concurrent writer)
+          StaleRead    \* what-if: read w.writer before taking the lock
 
-VARIABLES pc,          \* per process: "idle" "locked" "inds" "unlock" "done"
+VARIABLES pc,          \* per process: idle called read locked inds unlock ret done
           lock,        \* holder of the mutex, or "free"
-          open,        \* the valve still has its writer
-          events       \* what the driver's event log would show
+          open,        \* w.writer # nil
+          local,       \* per writer: the value of "w.writer # nil" it read
+          events       \* the ticketed event order
 
-vars == <<pc, lock, open, events>>
+vars == <<pc, lock, open, local, events>>
 Procs == Writers \cup (IF WithShut THEN {"shut"} ELSE {})
+E(e, who) == [e |-> e, who |-> who, err |-> ""]
+Goto(p, l) == pc' = [pc EXCEPT ![p] = l]
 
-Init == pc = [p \in Procs |-> "idle"] /\ lock = "free" /\ open = TRUE /\ events = <<>>
+Init == /\ pc = [p \in Procs |-> "idle"] /\ lock = "free" /\ open = TRUE
+        /\ local = [p \in Writers |-> TRUE] /\ events = <<>>
 
+\* the call starts (ticket)
+Call(p) == /\ pc[p] = "idle" /\ Goto(p, "called")
+           /\ events' = Append(events, E(IF p = "shut" THEN "shut-call" ELSE "w-call", p))
+           /\ UNCHANGED <<lock, open, local>>
+\* what-if only: writer := w.writer before the lock
+ReadEarly(p) == /\ StaleRead /\ p \in Writers /\ pc[p] = "called" /\ Goto(p, "read")
+                /\ local' = [local EXCEPT ![p] = open] /\ UNCHANGED <<lock, open, events>>
 \* w.writerLock.Lock()
-Lock(p) == pc[p] = "idle" /\ lock = "free" /\ lock' = p /\ pc' = [pc EXCEPT ![p] = "locked"] /\ UNCHANGED <<open, events>>
-\* if w.writer == nil { return len(buffer), nil }; otherwise enter w.writer.Write
+Lock(p) == /\ pc[p] = (IF StaleRead /\ p \in Writers THEN "read" ELSE "called") /\ lock = "free"
+           /\ lock' = p /\ Goto(p, "locked") /\ UNCHANGED <<open, local, events>>
+\* if w.writer == nil { return len(buffer), nil }; otherwise w.writer.Write(buffer) is entered
 Enter(p) == /\ p \in Writers /\ pc[p] = "locked"
-            /\ IF open THEN pc' = [pc EXCEPT ![p] = "inds"] /\ events' = Append(events, "ds-enter")
-                       ELSE pc' = [pc EXCEPT ![p] = "unlock"] /\ UNCHANGED events
-            /\ UNCHANGED <<lock, open>>
-\* the downstream writer returns
-Exit(p) == p \in Writers /\ pc[p] = "inds" /\ pc' = [pc EXCEPT ![p] = "unlock"] /\ events' = Append(events, "ds-exit")
-           /\ UNCHANGED <<lock, open>>
-\* w.writer = nil
-Drop == WithShut /\ pc["shut"] = "locked" /\ open' = FALSE /\ pc' = [pc EXCEPT !["shut"] = "unlock"] /\ UNCHANGED <<lock, events>>
-\* deferred Unlock, then the call returns
-Unlock(p) == /\ pc[p] = "unlock" /\ lock' = "free" /\ pc' = [pc EXCEPT ![p] = "done"]
-             /\ events' = (IF p = "shut" THEN Append(events, "shut-ret") ELSE events) /\ UNCHANGED open
+            /\ IF (IF StaleRead THEN local[p] ELSE open)
+               THEN Goto(p, "inds") /\ events' = Append(events, E("ds-enter", p))
+               ELSE Goto(p, "unlock") /\ UNCHANGED events
+            /\ UNCHANGED <<lock, open, local>>
+\* the underlying writer returns
+Exit(p) == /\ p \in Writers /\ pc[p] = "inds" /\ Goto(p, "unlock")
+           /\ events' = Append(events, E("ds-exit", p)) /\ UNCHANGED <<lock, open, local>>
+\* Shut: w.writer = nil
+Drop == /\ WithShut /\ pc["shut"] = "locked" /\ open' = FALSE /\ Goto("shut", "unlock")
+        /\ UNCHANGED <<lock, local, events>>
+\* deferred Unlock
+Unlock(p) == pc[p] = "unlock" /\ lock' = "free" /\ Goto(p, "ret") /\ UNCHANGED <<open, local, events>>
+\* the call has returned (ticket)
+Return(p) == /\ pc[p] = "ret" /\ Goto(p, "done")
+             /\ events' = Append(events, E(IF p = "shut" THEN "shut-ret" ELSE "w-ret", p))
+             /\ UNCHANGED <<lock, open, local>>
 
-Next == \E p \in Procs : Lock(p) \/ Enter(p) \/ Exit(p) \/ Unlock(p) \/ Drop
+Next == \E p \in Procs : Call(p) \/ ReadEarly(p) \/ Lock(p) \/ Enter(p) \/ Exit(p) \/ Unlock(p) \/ Return(p) \/ Drop
 Spec == Init /\ [][Next]_vars
 
-InvSchedule == C47_Schedule(IF WithShut THEN "valve-shut" ELSE "write", events)
+InvSchedule == C47_Schedule(IF WithShut THEN "valve" ELSE "concurrent", 0, events)
+InvShutDiscards == C47_ShutDiscards(events)
 InvMutex == \A p \in Procs : pc[p] \in {"locked", "inds", "unlock"} => lock = p
 ====
